@@ -105,6 +105,7 @@ func refreshMidRequest(run *vh.Run, idx int, c *Case, g *gateway, w *fedgen.Worl
 	clients := map[string]federation.ExecutorClient{}
 	var pB *federation.Planner
 	var sB *graphql.Schema
+	var altSync *syncer // kept for refresh_trace.go: the merged schema the other planner was built from
 	err := func() (err error) {
 		defer func() {
 			if e := recover(); e != nil {
@@ -126,7 +127,8 @@ func refreshMidRequest(run *vh.Run, idx int, c *Case, g *gateway, w *fedgen.Worl
 			}
 			clients[sv.Name] = &federation.DirectExecutorClient{Client: srv}
 		}
-		pB, sB, err = (&syncer{clients: clients, selector: g.sel}).FetchPlannerAndSchema(context.Background())
+		altSync = &syncer{clients: clients, selector: g.sel}
+		pB, sB, err = altSync.FetchPlannerAndSchema(context.Background())
 		return err
 	}()
 	if err != nil || pB == nil {
@@ -192,6 +194,7 @@ func refreshMidRequest(run *vh.Run, idx int, c *Case, g *gateway, w *fedgen.Worl
 		return
 	}
 	run.Hist("refresh-mid-request:compared")
+	recordRefreshTrace(run, idx, c, g, w, altSync, plan, r.v, r.err)
 	switch {
 	case r.err != "":
 		failCapped(run, idx, "gateway-request-fails-when-schema-refresh-lands-mid-request", fmt.Sprintf("planner swapped between planning and the first hop (new version set: %s): %s; without the refresh: %s; query: %s", altSummary(c, alt), short(r.err, 300), short(js(plain), 200), short(c.text(), 400)), *c)
